@@ -4,6 +4,24 @@ NOTES = ("Every check rebuilds the harness from /repo's working tree (go build -
          "then runs the correspondence between the Lean model driver and the real code. See DESIGN.md.")
 NOT_APPLICABLE = {}
 CHECKS = {
+ "C12": {
+  "text": "Lean proves for every report tree satisfying a decidable shape predicate WF (keys distinct, no `_`, not numeric, at most one array of typed children per typed node) that the ids assigned by the model of defineIdRecursively are pairwise distinct, injectively joined with `_`, distinct across levels and from the three fixed ids (report_ids_unique, document_ids_nodup), and that WF is necessary (collision_without_wf). Every real report produced from nested/quantified profiles is converted to the model tree: WF is decided on it, its ids must equal the model's, and groundedness/completeness of every result and sub-result is checked.",
+  "note": "Trusted: Lean kernel; the conversion of the report JSON to the tree type; the shape hypothesis is checked per real report (decidably), not proved for all reports the policy can produce.",
+  "technique": "Lean 4 proof (mutual induction over the report tree, string-level injectivity) + per-report decidable hypothesis check and id correspondence",
+  "ref": "DESIGN.md 7/C12",
+ },
+ "C13": {
+  "text": "Lean proves lex(quote s) = s for every string (every Char: quotes, backslashes, controls, U+2028/9, astral), that the literal ends exactly at its closing quote whatever follows, that sprintf over %-escaped segments renders exactly the interleaving, and (C13Message) that the whole message pipeline renders the specification. Tied by comparing the real RegoString and ParseMessageExpression with the model on hostile strings, the engine's own lexer reading literals back, and end-to-end profileName / sourceShapeName / resultMessage / list matching.",
+  "note": "Trusted: Lean kernel; OPA's string lexer and sprintf restricted to %% and %v (modelled, tied differentially); yaml.v3. Covered paste sites: profile name, validation name, message, message variable path, in/containsAll/containsSome values, pattern. IRIs derived from prefix declarations are not covered.",
+  "technique": "Lean 4 proof by induction on the string (quoting round trip, printf escaping) + differential correspondence with hostile strings",
+  "ref": "DESIGN.md 7/C13",
+ },
+ "C14": {
+  "text": "Lean proves that the first four digit runs of a range string `[(a,b)-(c,d)]` are exactly a,b,c,d for all naturals (digitRuns_range, parseRange_fmtRange, readNat_showNat), and on the lexical-index model: a node is indexed iff a lexical entry's element is its id, property-level entries index nothing, the file is the (last) additional location listing the node else the root location, no source maps means no location, and the location carries exactly the recorded numbers. Tied by generated graphs with node-level/property-level/no entries, 0..3 source files, magnitudes up to 30 digits, and a source-map-free twin.",
+  "note": "Trusted: Lean kernel; regex.find_n / to_number of the engine (modelled by digitRuns/readNat); json-gold on the generated flat documents.",
+  "technique": "Lean 4 proof (induction on decimal digits; list reasoning on the index model) + differential correspondence on report locations",
+  "ref": "DESIGN.md 7/C14",
+ },
  "C16": {
   "text": "The grammar table of the generated parser (peg.go) and the documented grammar (propertyparser.peg) are both translated into Lean on every run and proved equal (doc_eq_table); for any grammar ending in the EOF rule an accepted string is consumed entirely (accepts_whole + table_endsWithEOF); every well-formed path AST round-trips through rendering and parsing in canonical and in arbitrary optional whitespace (render_parse, ws_insensitive); the pre-repair grammar truncates (old_truncates). The generic PEG interpreter + hand-modelled semantic actions are tied to the real parser by comparing accept/reject and structure on sentences in whitespace/parenthesis variants and all their single-edit mutations.",
   "note": "Trusted: Lean kernel; the two grammar translators; the generic PEG interpreter as a model of the pigeon runtime and the hand-modelled actions (tied by the correspondence).",
